@@ -50,7 +50,10 @@ def bank_strategy(max_tokens, disc):
             flat = {"l": "CNP", "e": "--", "lem": "--", "m": "--", "c": inner}
             pool.append({"sid": 1, "root": {"l": "VROOT", "e": "--", "lem": "--", "m": "--", "c": [flat] + outer}})
         picks = draw(st.lists(st.integers(0, len(pool) - 1), min_size=1, max_size=5))
-        return [pool[i] for i in picks]
+        bank = [pool[i] for i in picks]
+        # counts with two and three digits
+        repeat = draw(st.sampled_from([1, 1, 1, 1, 1, 11, 101]))
+        return bank * repeat if len(bank) * repeat <= 330 else bank
     return build()
 
 
